@@ -6,6 +6,7 @@ import BigtoolsModel.IndexerFix
 import BigtoolsModel.AutoSqlNTest
 import BigtoolsModel.MergePost
 import BigtoolsModel.Fill
+import BigtoolsModel.Compat
 /-! Driver commands for the small kinds: staging buffer, FileView, chunker, indexer, autoSql, merge, fill.
     Always the repaired (`fixed = true`) variants: these are the ones the universal theorems are about. -/
 namespace Drv
@@ -240,5 +241,15 @@ def opsCase (c : Case) : List String :=
   ["R ok", s!"FINAL {if firstHot < n then "opens" else "rejected"}", prefixLine,
    s!"FIRSTOPEN {if firstHot + 1 < n then toString (firstHot + 1) else "never"}",
    "FAULT" ++ String.join ((List.range n).map fun _ => " e")]
+
+end Drv
+
+namespace Drv
+
+def compatCase (c : Case) : List String :=
+  let args := (c.records "ARG").map fun l => unhex (l.getD 1 "-")
+  match CLI.compatArgs args with
+  | .panic => ["R panic"]
+  | .args l => ["ARGS" ++ String.join (l.map fun a => " " ++ hex a)]
 
 end Drv
